@@ -62,6 +62,21 @@ def default_for(col_type):
   return d.get(pure, d.get("Any"))
 
 
+_INT_TYPES = ("Int", "Ref", "Id")
+_REAL_TYPES = ("Numeric", "ManualSortPos", "PositionNumber", "Date", "DateTime")
+
+def _affinity(col_type, v):
+  """SQLite column affinity as DocStorage declares it: a lossless REAL stored into an INTEGER
+  column comes back as an integer, and an integer stored into a REAL/NUMERIC column of a Grist
+  float type is served as a float. (The engine reports a Numeric->Int conversion of 1.0 to 1 as
+  no change, relying on exactly this; which Python number type Node serves is outside C02/C07.)"""
+  if type(v) is float and (col_type or "").split(":", 1)[0] in _INT_TYPES and v.is_integer():
+    return int(v)
+  if type(v) is int and (col_type or "").split(":", 1)[0] in _REAL_TYPES:
+    return float(v)
+  return v
+
+
 class SimStore(object):
   def __init__(self):
     self.tables = {}
@@ -199,7 +214,8 @@ class SimStore(object):
     """The table in the same shape as a fetch_table reply."""
     t = self.tables[tid]
     rids = sorted(t["rows"])
-    cols = {c: [t["rows"][r][c] for r in rids] for c in t["cols"] if c != "id"}
+    cols = {c: [_affinity(ct, t["rows"][r][c]) for r in rids]
+            for c, ct in t["cols"].items() if c != "id"}
     return ["TableData", tid, rids, cols]
 
   def snapshot(self):
